@@ -372,7 +372,8 @@ def conditional(ctx, method="GET"):
 
 # ---- confinement of a static route (concrete targets chosen by the solver; the file system is real) --------
 STATIC_SEGMENTS = ["..", "%2e%2e", "%2E.", ".", "sub", "link_out", "link_file", "link_in", "secret.txt", "inner.txt",
-                   "file.txt", "", "%2f", "%5c..", "..%2f..", "outside", "%2e%2e%2foutside", "..\\outside"]
+                   "file.txt", "", "%2f", "%5c..", "..%2f..", "outside", "%2e%2e%2foutside", "..\\outside",
+                   "link_sibling", "..%2Froot-private", "..%2froot-private%2fsecret.txt"]
 
 
 def static_confinement(ctx, nseg=3, first=None):
@@ -403,6 +404,10 @@ def static_confinement(ctx, nseg=3, first=None):
         os.symlink(os.path.join(base, "outside"), os.path.join(root, "link_out"))
         os.symlink(os.path.join(base, "outside", "secret.txt"), os.path.join(root, "link_file"))
         os.symlink(os.path.join(root, "sub"), os.path.join(root, "link_in"))
+        # a sibling whose path merely starts with the root's path string
+        os.makedirs(os.path.join(base, "root-private"))
+        open(os.path.join(base, "root-private", "secret.txt"), "wb").write(b"SECRET-OUTSIDE-SIBLING")
+        os.symlink(os.path.join(base, "root-private"), os.path.join(root, "link_sibling"))
         follow = ctx.flag("break_symlink_sandbox")
         index = ctx.flag("show_index")
         app = web.Application()
@@ -426,7 +431,7 @@ def static_confinement(ctx, nseg=3, first=None):
         body = out.split(b"\r\n\r\n", 1)[1] if b"\r\n\r\n" in out else b""
         info = {"target": target, "follow_symlinks": follow, "show_index": index, "status": status,
                 "body": body[:120].decode("latin1")}
-        via_link = any(x.startswith("link_out") or x.startswith("link_file") for x in segs)
+        via_link = any(x.startswith("link_out") or x.startswith("link_file") or x.startswith("link_sibling") for x in segs)
         if b"SECRET-OUTSIDE" in body and not (follow and via_link):
             info["key"] = "file-outside-root-served" + ("" if follow else ":follow_symlinks-off")
             return False, "inv:static", info
